@@ -481,6 +481,10 @@ func cmdRun(args []string) {
 		os.Exit(2)
 	}
 	defer os.RemoveAll(tmp)
+	exit := func(code int) {
+		os.RemoveAll(tmp)
+		os.Exit(code)
+	}
 	w := *workers
 	if w > n {
 		w = n
@@ -566,7 +570,7 @@ func cmdRun(args []string) {
 		allHB = append(allHB, hs...)
 	}
 	if exit2 {
-		os.Exit(2)
+		exit(2)
 	}
 	sort.Slice(allKeys, func(i, j int) bool { return allKeys[i] < allKeys[j] })
 	distinctKeys := 0
@@ -588,7 +592,7 @@ func cmdRun(args []string) {
 		if b, err := os.ReadFile(*known); err == nil {
 			if err := json.Unmarshal(b, &kfs); err != nil {
 				fmt.Fprintln(os.Stderr, "CANNOT-DECIDE: bad known-findings file:", err)
-				os.Exit(2)
+				exit(2)
 			}
 		}
 	}
@@ -642,7 +646,7 @@ func cmdRun(args []string) {
 	fmt.Printf("%s %s: cases=%d nontrivial=%d distinct=%d sim_runs=%d steps=%d wall=%.1fs violations=%d known=%d\n",
 		*prop, *tier, total.Cases, total.NonTrivial, distinctKeys, total.SimRuns, total.Steps, wall, nviol, len(knownMatched))
 	if nviol > 0 {
-		os.Exit(1)
+		exit(1)
 	}
 }
 
